@@ -755,3 +755,29 @@ Qed.
 
 Lemma category_view_ok ms : Forall cat_ok (category_view ms).
 Proof. unfold category_view, group. apply group_fold_ok; [constructor|]. cbn [view_pairs flat_map app]. apply by_id_keys_nodup. Qed.
+
+(* ---- typeTotals ------------------------------------------------------------------------ *)
+Lemma sumZ_flat_map {A} (g : A -> list Z) l : sumZ (flat_map g l) = sumZ (map (fun x => sumZ (g x)) l).
+Proof. induction l as [|x l IH]; [reflexivity|]. cbn [flat_map map]. rewrite sumZ_app, IH. reflexivity. Qed.
+
+Lemma map_flat_map {A B C} (f : B -> C) (g : A -> list B) l : map f (flat_map g l) = flat_map (fun x => map f (g x)) l.
+Proof. induction l as [|x l IH]; [reflexivity|]. cbn [flat_map]. rewrite map_app, IH. reflexivity. Qed.
+
+(* summed over the categories, each bucket is the sum over the transactions of the listed merchants *)
+Lemma type_totals_listed f cv :
+  sumZ (map (cat_tt f) cv) = sumZ (map f (flat_map j_txns (view_merchants cv))).
+Proof.
+  unfold view_merchants, view_pairs. induction cv as [|c cv IH]; [reflexivity|].
+  cbn [map flat_map sumZ fold_right]. fold (sumZ (map (cat_tt f) cv)). rewrite IH.
+  rewrite map_app, flat_map_app, map_app, sumZ_app. f_equal.
+  unfold cat_tt, cat_txns. rewrite flat_map_concat_map, (flat_map_concat_map j_txns), map_map. reflexivity.
+Qed.
+
+Lemma type_totals_all f ms : NoDup (map mid ms) ->
+  sumZ (map (cat_tt f) (category_view ms)) = sumZ (map f (flat_map m_txns ms)).
+Proof.
+  intros H. rewrite type_totals_listed.
+  rewrite (sumZ_perm _ _ (Permutation_map f (perm_flat_map j_txns _ _ (category_view_merchants _ H)))).
+  f_equal. f_equal. induction ms as [|m ms IH]; [reflexivity|]. cbn [map flat_map]. f_equal.
+  apply IH. inversion H; assumption.
+Qed.
